@@ -13,3 +13,7 @@ fn witness_nullable_not() {
     let r = NullableInterval::ANY_TRUTH_VALUE.not();
     //@MUSTFAIL
 }
+fn witness_gt(x: &Interval, y: &Interval) requires num_iv(*x), num_iv(*y) {
+    let r = x.gt(y);
+    //@MUSTFAIL
+}
